@@ -246,6 +246,14 @@ impl C13 {
         if p.is_cp() {
             let (loss, delta) = cp_loss(res[i], res[j], off, net);
             let abs = hash_of(&("cp", pool, i, mag(off), accepted, max_slip.map(|d| d.atomics().u128())));
+            // where the base-unit price lies below 1e-18 the contract's 18-digit exchange rate is
+            // zero and the band above exceeds 100%: the price cannot be measured at all there (the
+            // contract then refuses every such trade). An *accepted* trade that loses more than
+            // tolerance + 50% is over the limit whatever the measurement error
+            if accepted && delta.gt(&Q::int(1)) && loss.gt(&tol.add(&Q::new(BigInt::one(), bi(2)))) {
+                rep.failed("swap_limit_cp", None, format!("pool {pool}: executed with a loss of {:.6} against the pool price under a tolerance of {:.6} (base-unit price below 1e-18, where the exchange rate cannot be represented)", loss.to_f64(), tol.to_f64()), wit(json!({})));
+                return;
+            }
             match judge(accepted, rejected_for_it, &loss, &tol, &delta, "price impact + fees vs pool price") {
                 Judge::Ok => rep.held("swap_limit_cp", abs, || json!({"pool": pool, "offer": offer.to_string(), "net": net.to_string(), "loss": loss.to_f64(), "tolerance": tol.to_f64(), "accepted": accepted})),
                 Judge::Boundary => rep.boundary("swap_limit_cp"),
